@@ -71,6 +71,58 @@ def returned(fn):
     return kids(rs[0])[0]
 
 
+def search_call(fn, var, cmp_name, sentry_fields):
+    """the initialiser of the iterator `var`: `std::upper_bound(transitions.begin(), transitions.end(), sentry, Cmp())`.
+    Returns True for upper_bound, False for lower_bound (the model has both libstdc++ loops); anything else is an error."""
+    v = locate_var(fn, var)
+    calls = [n for n in walk(v) if n.get("kind") == "CallExpr"
+             and strip(kids(n)[0]).get("kind") == "DeclRefExpr"
+             and strip(kids(n)[0])["referencedDecl"]["name"] in ("upper_bound", "lower_bound", "equal_range", "find_if", "partition_point")]
+    if len(calls) != 1:
+        raise ExtractError("%s: `%s` is no longer initialised by one std::upper_bound/lower_bound call" % (fn.get("name"), var))
+    c = calls[0]
+    name = strip(kids(c)[0])["referencedDecl"]["name"]
+    if name not in ("upper_bound", "lower_bound"):
+        raise ExtractError("%s: `%s` is computed by std::%s, which the model does not have" % (fn.get("name"), var, name))
+    args = kids(c)[1:]
+    if len(args) != 4:
+        raise ExtractError("%s: std::%s is expected with (first, last, value, comp)" % (fn.get("name"), name))
+
+    def member_call(a):
+        ms = [x for x in walk(a) if x.get("kind") == "MemberExpr"]
+        if len(ms) != 2 or ms[1].get("name") != "transitions":
+            return None
+        return ms[0].get("name")
+    if member_call(args[0]) != "begin" or member_call(args[1]) != "end":
+        raise ExtractError("%s: std::%s no longer searches transitions.begin()..transitions.end()" % (fn.get("name"), name))
+    val = strip(args[2])
+    if val.get("kind") != "DeclRefExpr" or val["referencedDecl"]["name"] != "sentry":
+        raise ExtractError("%s: the searched value is no longer `sentry`" % fn.get("name"))
+    if cmp_name not in ctype(args[3]):
+        raise ExtractError("%s: the comparator is no longer %s (%s)" % (fn.get("name"), cmp_name, ctype(args[3])))
+    # Transition sentry(a, b, c): which constructor argument carries the searched key
+    sv = locate_var(fn, "sentry")
+    ctor = [n for n in walk(sv) if n.get("kind") == "CXXConstructExpr" and len(kids(n)) == 3]
+    if len(ctor) != 1:
+        raise ExtractError("%s: `Transition sentry(x, y, z)` was not found" % fn.get("name"))
+    got = []
+    for a in kids(ctor[0]):
+        a = strip(a)
+        if a.get("kind") == "IntegerLiteral":
+            got.append(str(int(a["value"])))
+        elif a.get("kind") == "DeclRefExpr":
+            got.append(a["referencedDecl"]["name"])
+        else:
+            got.append("?")
+    if got != sentry_fields:
+        raise ExtractError("%s: sentry is built from %s, expected %s" % (fn.get("name"), got, sentry_fields))
+    return name == "upper_bound"
+
+
+def bool_def(name, value, doc):
+    return "/-- %s -/\ndef %s : Bool := %s\n" % (doc, name, "true" if value else "false")
+
+
 def generate():
     out = [HEADER % "muduo/base/TimeZone.cc", "namespace MuduoVerif.Gen.Zone\n"]
     docs = ast_dump("muduo/base/TimeZone.cc", "muduo::TimeZone::Data")
@@ -104,6 +156,9 @@ def generate():
     out.append(prop_def("utcUseFirst", [("n", N), ("utcTime", I), ("firstUtc", I)],
                         unparen(t.expr(if_cond(locate_if(f1, "utcTime")))),
                         "`findLocalTime(utcTime)`: no transition applies, use `localtimes.front()`"))
+    out.append(bool_def("utcSearchUpper", search_call(f1, "transI", "CompareUtcTime", ["utcTime", "0", "0"]),
+                        "`findLocalTime(utcTime)`: `transI` is `std::upper_bound(begin, end, Transition(utcTime,0,0), CompareUtcTime())` "
+                        "(`false`: `std::lower_bound`)"))
     ends = [i for i in find_ifs(f1) if mentions(if_cond(i), "transI") and mentions(if_cond(i), "end")]
     if len(ends) != 1:
         raise ExtractError("findLocalTime(utcTime): the comparison of transI with end() was not found")
@@ -119,22 +174,34 @@ def generate():
         raise ExtractError("findLocalTime(local): the test against transitions.front() was not found")
     out.append(prop_def("localUseFirst", [("n", N), ("localtime", I), ("firstLocal", I)], unparen(t.expr(if_cond(first[0]))),
                         "`findLocalTime(local, post)`: before the first transition, use `localtimes.front()`"))
-    ends = [i for i in find_ifs(f2) if mentions(if_cond(i), "transI") and mentions(if_cond(i), "end")]
-    if len(ends) != 1:
-        raise ExtractError("findLocalTime(local): the comparison of transI with end() was not found")
+    out.append(bool_def("localSearchUpper", search_call(f2, "transI", "CompareLocalTime", ["0", "localtime", "0"]),
+                        "`findLocalTime(local, post)`: `transI` is `std::upper_bound(begin, end, Transition(0,localtime,0), CompareLocalTime())` "
+                        "(`false`: `std::lower_bound`)"))
+    # const bool afterLast = (transI == transitions.end());
+    v = locate_var(f2, "afterLast")
     t = ZTr({"transI": "i", "transitions.end()": "n"})
-    out.append(prop_def("localAtEnd", [("i", N), ("n", N)], unparen(t.expr(if_cond(ends[0]))),
-                        "`findLocalTime(local, post)`: the upper bound is `end()` (returns the last transition's record at once)"))
+    out.append(prop_def("localAfterLast", [("i", N), ("n", N)], unparen(t.expr(kids(v)[-1])),
+                        "`findLocalTime(local, post)`: the initialiser of `afterLast` (the upper bound is `end()`)"))
+    if t.used != {"transI", "transitions.end()"}:
+        raise ExtractError("findLocalTime(local): `afterLast` no longer compares transI with transitions.end()")
+    # Transition prior_trans = *(transI - 1);  -- the element before the bound
+    v = locate_var(f2, "prior_trans")
+    subs = [n for n in walk(v) if n.get("kind") == "CXXOperatorCallExpr"
+            and strip(kids(n)[0]).get("referencedDecl", {}).get("name") == "operator-"]
+    if len(subs) != 1 or strip(kids(subs[0])[1]).get("referencedDecl", {}).get("name") != "transI" \
+            or strip(kids(subs[0])[2]).get("kind") != "IntegerLiteral" or int(strip(kids(subs[0])[2])["value"]) != 1:
+        raise ExtractError("findLocalTime(local): `prior_trans = *(transI - 1)` was not found")
     begins = [i for i in find_ifs(f2) if mentions(if_cond(i), "transI") and mentions(if_cond(i), "begin")]
     if len(begins) != 1:
         raise ExtractError("findLocalTime(local): the comparison of transI with begin() was not found")
     t = ZTr({"transI": "j", "transitions.begin()": "0"})
     out.append(prop_def("hasPrior", [("j", N)], unparen(t.expr(if_cond(begins[0]))),
                         "`findLocalTime(local, post)`: after `--transI`, there is a transition before it"))
-    sym = {"transI.utctime": "transUtc", "localtimes[prior_trans.localtimeIdx].utcOffset": "priorOffset"}
+    sym = {"transI.utctime": "transUtc", "localtimes[prior_trans.localtimeIdx].utcOffset": "priorOffset",
+           "afterLast": "(afterLast = true)"}
     v = locate_var(f2, "prior_second")
     t = ZTr(dict(sym))
-    out.append(int_def("priorSecond", [("transUtc", I), ("priorOffset", I)], unparen(t.expr(kids(v)[-1])),
+    out.append(int_def("priorSecond", [("afterLast", "Bool"), ("transUtc", I), ("priorOffset", I)], unparen(t.expr(kids(v)[-1])),
                        "`findLocalTime(local, post)`: last local second before the transition `transI` (initialiser of `prior_second`)"))
     assigns = [n for n in walk(body_of(f2)) if n.get("kind") == "BinaryOperator" and n.get("opcode") == "="
                and strip(kids(n)[0]).get("kind") == "DeclRefExpr"
@@ -144,16 +211,22 @@ def generate():
     t = ZTr(dict(sym))
     out.append(int_def("priorSecond2", [("transUtc", I), ("priorOffset", I)], unparen(t.expr(kids(assigns[0])[1])),
                        "the same, re-computed after `--transI` (assignment to `prior_second`)"))
-    skip = [i for i in find_ifs(f2) if strip(if_cond(i)).get("kind") == "BinaryOperator"
-            and strip(if_cond(i)).get("opcode") in ("<", ">", "<=", ">=")
-            and mentions(if_cond(i), "prior_second") and mentions(if_cond(i), "localtime")]
+    skip = [i for i in find_ifs(f2) if mentions(if_cond(i), "prior_second") and mentions(if_cond(i), "localtime")]
     if len(skip) != 2:
         raise ExtractError("findLocalTime(local): expected the skip test and the repeat test, found %d" % len(skip))
-    t = ZTr({"prior_second": "priorSecond", "localtime": "localtime"})
-    out.append(prop_def("isSkip", [("priorSecond", I), ("localtime", I)], unparen(t.expr(if_cond(skip[0]))),
+    # the decrement `--transI` must sit between the two tests (statement order of the function body)
+    stmts = kids(body_of(f2))
+    pos = {id(x): k for k, x in enumerate(stmts)}
+    decs = [k for k, x in enumerate(stmts) if x.get("kind") in ("UnaryOperator", "CXXOperatorCallExpr", "ExprWithCleanups")
+            and mentions(x, "transI") and (x.get("opcode") == "--" or mentions(x, "operator--"))]
+    if len(decs) != 1 or not (pos.get(id(skip[0]), -1) < decs[0] < pos.get(id(skip[1]), 1 << 30)):
+        raise ExtractError("findLocalTime(local): expected `--transI` once, between the skip test and the repeat test")
+    t = ZTr({"prior_second": "priorSec", "localtime": "localtime", "afterLast": "(afterLast = true)"})
+    out.append(prop_def("isSkip", [("afterLast", "Bool"), ("priorSec", I), ("localtime", I)], unparen(t.expr(if_cond(skip[0]))),
                         "`findLocalTime(local, post)`: the local time falls into the gap before `transI` (first test)"))
-    t = ZTr({"prior_second": "priorSecond", "localtime": "localtime"})
-    out.append(prop_def("isRepeat", [("localtime", I), ("priorSecond", I)], unparen(t.expr(if_cond(skip[1]))),
+    t = ZTr({"prior_second": "priorSec", "localtime": "localtime", "afterLast": "(afterLast = true)"})
+    body = unparen(t.expr(if_cond(skip[1])))
+    out.append(prop_def("isRepeat", [("afterLast" if "afterLast" in t.used else "_afterLast", "Bool"), ("localtime", I), ("priorSec", I)], body,
                         "`findLocalTime(local, post)`: the local time also existed before the transition (second test)"))
 
     # toLocalTime / fromLocalTime
